@@ -1,5 +1,6 @@
 from __future__ import annotations
 
+import re
 from dataclasses import dataclass, field
 from enum import Enum, unique
 from typing import Any, List, Union
@@ -94,7 +95,11 @@ class IRSchema:
         if self.name:
             # Store original name if needed for specific logic before sanitization, though not currently used here.
             # original_name = self.name
-            self.name = NameSanitizer.sanitize_class_name(self.name)
+            sanitized = NameSanitizer.sanitize_class_name(self.name)
+            # sanitize_class_name is not idempotent on one-letter words ("a_b" -> "AB" -> "Ab"). Callers usually pass
+            # a name that is sanitiser output already: such a name keeps its casing when sanitised a second time.
+            if not (re.fullmatch(r"_?(?:[A-Z][a-z]*|[0-9]+)+_?", self.name) and sanitized.lower() == self.name.lower()):
+                self.name = sanitized
 
         # Ensure that if type is a reference (string not matching basic types),
         # other structural fields like properties/items/enum are usually None or empty.
